@@ -65,6 +65,7 @@ func runC15(c *Ctx) {
 	c.NotDec = []string{"that every bit flip is detected (CRC strength)", "exact reader position after a search", "races between rotation and concurrent readers"}
 	c.Floors["G"] = 18
 	c.Floors["S"] = 20
+	c15Round3(c)
 
 	maxSz := c.P.Const("consensus", "maxMsgSizeBytes")
 	walDecodeRules(c)
